@@ -54,6 +54,7 @@ func (c *Client) handshake(ctx context.Context) error {
 			return errors.Wrap(err, "flush")
 		}
 
+		verifGate("handshake.afterHelloWrite")
 		code, err := c.packet(ctx)
 		if err != nil {
 			return errors.Wrap(err, "packet")
@@ -78,6 +79,7 @@ func (c *Client) handshake(ctx context.Context) error {
 			// Downgrade to server version.
 			c.protocolVersion = c.server.Revision
 		}
+		verifGate("handshake.afterServerHello")
 
 		c.lg.Debug("Connected",
 			zap.Int("protocol_version", c.protocolVersion),
